@@ -223,8 +223,8 @@ func newDateTime(argumentList []Value, location *Time.Location) float64 {
 			return math.NaN()
 		}
 
-		if year >= 0 && year <= 99 {
-			year += 1900
+		if integer := math.Trunc(year); integer >= 0 && integer <= 99 {
+			year = 1900 + integer
 		}
 
 		time := Time.Date(int(year), dateToGoMonth(int(month)), int(day), int(hour), int(minute), int(second), int(millisecond)*1000*1000, location)
